@@ -79,11 +79,14 @@ fn main() {
         "C02" => drive(&checks::statics::Statics { which: checks::statics::Which::C02 }, &opts),
         "C03" => drive(&checks::statics::Statics { which: checks::statics::Which::C03 }, &opts),
         "C04" => drive(&checks::statics::Statics { which: checks::statics::Which::C04 }, &opts),
+        "C05" => drive(&checks::cli::Cli, &opts),
+        "C06" => drive(&checks::config::Config, &opts),
         "C07" => drive(&checks::multi::Multi, &opts),
         "C08" => drive(&checks::dynamic::Dynamic { faults: false }, &opts),
         "C09" => drive(&checks::dynamic::Dynamic { faults: true }, &opts),
         "C10" => drive(&checks::encodings::Encodings, &opts),
         "C12" => drive(&checks::store::Store, &opts),
+        "C13" => drive(&checks::readers::Readers, &opts),
         "C14" => drive(&checks::writers::Writers, &opts),
         "C15" => drive(&checks::satobj::SatObj, &opts),
         "C16" => drive(&checks::exchange::Exchange, &opts),
